@@ -1,6 +1,6 @@
 """Sidecar contracts for tefra/xsdata, keyed by module:QualName (see DESIGN.md §2.1)."""
 
-MODULES = ["c06_dates", "c03_namespaces", "c05_converters", "c10_strictness"]
+MODULES = ["c06_dates", "c03_namespaces", "c05_converters", "c10_strictness", "c09_infoset"]
 
 # helpers executed by inlining their real source instead of through a contract (listed in evidence)
 INLINE = ["calendar:isleap"]
@@ -8,6 +8,18 @@ INLINE = ["calendar:isleap"]
 NODES = "xsdata.formats.dataclass.parsers.nodes"
 
 PROPERTIES = {
+    "C09": {
+        "min_obligations": 100,
+        "canaries": [
+            {"name": "merge-parent-wins", "function": "xsdata.formats.dataclass.parsers.handlers.native:XmlEventHandler.merge_parent_namespaces#child-element",
+             "module": "xsdata.formats.dataclass.parsers.handlers.native", "target": "XmlEventHandler.merge_parent_namespaces",
+             "old": "result[prefix] = uri", "new": "result[prefix] = result.get(prefix, uri)"},
+            {"name": "normalize-strips-content", "function": "xsdata.formats.dataclass.parsers.utils:ParserUtils.normalize_content",
+             "module": "xsdata.formats.dataclass.parsers.utils", "target": "ParserUtils.normalize_content",
+             "old": "return value", "new": "return value.strip()"},
+        ],
+        "decided": [], "not_decided": [], "bounded": [], "trusted_base": [], "assumptions": [],
+    },
     "C10": {
         "min_obligations": 150,
         "canaries": [
